@@ -201,7 +201,10 @@ def check(ctx):
                   reason="the frame body is not read as (&mut self.stream).take(length as u64 − 1).read_to_end(..) after the id",
                   detail="body = stream.take(length − 1).read_to_end(buf), after the id")
         r = return_expr(an)
-        oks = find_all(r, lambda x: x[0] == "agg" and x[1].endswith("Result::Ok"))
+        # the Ok(..) values the function itself returns (alternatives of the return value), not results nested in `?` operands
+        r0 = flow.strip(r)
+        oks = [x for x in (r0[1] if r0[0] == "phi" else (r0,)) if flow.strip(x)[0] == "agg" and flow.strip(x)[1].endswith("Result::Ok")]
+        oks = [flow.strip(x) for x in oks]
         cur = False
         if len(oks) == 1:
             t = flow.strip(oks[0][2][0][1])
